@@ -82,6 +82,65 @@ def ob_split(ctx, nl, N):
                    sample=lambda m: {'data': model_bytes(m, data), 'newline': nl, 'lines': len(lines)})
 
 
+FILLER = b'ab\n c\r\nd\x00\n\x00e\r\x00\n\x00\x00\x00\n'
+
+
+def _fill(n, phase=0):
+    reps = (n + phase) // len(FILLER) + 2
+    return (FILLER * reps)[phase:phase + n]
+
+
+def ob_window(ctx, nl, offsets, W):
+    """long inputs: concrete filler of k bytes, a fully symbolic window, concrete filler of m bytes -- for
+    implementations whose behaviour could depend on the length or on block boundaries"""
+    split_lines = _split_lines()
+    k = ctx.pick('prefix_len', offsets)
+    m = ctx.pick('suffix_len', [0, 1, 67])
+    w = ctx.choose(1, W, 'window')
+    win = sym_bytes(ctx, 'w', w)
+    data = mk_seq(tuple(_fill(k)) + tuple(win.el) + tuple(_fill(m, 3)), bytes)
+    n = len(lift(data).el)
+    try:
+        lines = split_lines(data, nl, keep_ends=True)
+        plain = split_lines(data, nl, keep_ends=False)
+    except Exception as e:
+        return viol('raised:%s' % type(e).__name__, {'data': model_bytes(ctx.model(), data), 'newline': nl})
+    joined = ()
+    for l in lines:
+        joined += lift(l).el
+    props = [('concat', lift(mk_seq(joined, bytes)).eq_cond(data) if len(joined) == n else False)]
+    # independent left-to-right scan
+    d = lift(data)
+    exp = []
+    p = 0
+    while True:
+        i = d.find(nl, p)
+        if i < 0:
+            break
+        exp.append(mk_seq(d.el[p:i + len(nl)], bytes))
+        p = i + len(nl)
+    if p < n:
+        exp.append(mk_seq(d.el[p:], bytes))
+    props.append(('count', len(lines) == len(exp)))
+    if len(lines) == len(exp):
+        props.append(('lines', conj(lift(a).eq_cond(b) if len(a) == len(b) else False for a, b in zip(lines, exp))))
+    props.append(('modes-same-count', len(plain) == len(exp)))
+    if len(plain) == len(exp):
+        tnl = tuple(nl)
+        for pl, l in zip(plain, exp):
+            l = lift(l)
+            e = l.at(tnl, len(l.el) - len(nl))
+            want = mk_seq(l.el[:len(l.el) - len(nl)], bytes) if e is True else (l if e is False else None)
+            if want is None:
+                a = lift(mk_seq(lift(pl).el + tnl, bytes)).eq_cond(l)
+                b = lift(pl).eq_cond(l)
+                props.append(('modes-relation', ite(e, zbool(a), zbool(b))))
+            else:
+                props.append(('modes-relation', lift(pl).eq_cond(want) if len(pl) == len(want) else False))
+    return verdict(ctx, props, witness=lambda m_: {'data': model_bytes(m_, data), 'newline': nl},
+                   sample=lambda m_: {'len': n, 'prefix_len': k, 'window': model_bytes(m_, win), 'newline': nl})
+
+
 def obligations(tier):
     N = 8 if tier == 'quick' else 13
     obs = []
@@ -90,6 +149,18 @@ def obligations(tier):
                       must_reach=['utils.text:split_lines'],
                       desc='real split_lines, both modes, all data of 1..%d symbolic bytes, newline %r' % (N, nl),
                       bounds={'data_len': [1, N], 'newline': nl.hex()}))
+    quick = tier == 'quick'
+    base = list(range(0, 24)) if quick else list(range(0, 140))
+    marks = [64, 96, 128, 256, 512, 1024, 2048, 4096] if quick else \
+        [64, 96, 128, 192, 256, 384, 512, 1000, 1024, 2048, 4096, 8192, 16384, 32768, 65536, 131072]
+    offsets = sorted(set(base + [x + dlt for x in marks for dlt in (-3, -2, -1, 0, 1)]))
+    for nl in (NEWLINES if not quick else [NEWLINES[0], NEWLINES[1], NEWLINES[3]]):
+        obs.append(Ob('window[%s]' % nl.hex(), ob_window, dict(nl=nl, offsets=offsets, W=2 if quick else 3),
+                      must_reach=['utils.text:split_lines'],
+                      desc='long inputs: concrete filler of k bytes (k over %d offsets up to %d, around block-size marks), '
+                           'a symbolic window of 1..%d bytes, filler of 0/1/67 bytes; both modes against an independent scan'
+                           % (len(offsets), offsets[-1], 2 if quick else 3),
+                      bounds={'prefix_len': [offsets[0], offsets[-1]], 'offsets': len(offsets), 'window': [1, 2 if quick else 3]}))
     return obs
 
 
